@@ -51,6 +51,7 @@ def load_prop(pid):
         prop.theorems = list(reg['theorems'])
         prop.agree = list(reg.get('agree', []))
         prop.agree_theorems = list(reg.get('agree_theorems', []))
+        prop.by_module = dict(reg.get('by_module', {}))
     return prop
 
 
@@ -396,7 +397,17 @@ def run_check(pid, tier, seed):
         built = [m for m in list(prop.lean_modules) + list(prop.agree) if mod_ok.get(m, False)]
         all_th = list(prop.theorems) + agree_th
         if built and all_th:
-            th_ok = audit_axioms(pid, all_th, built)
+            by_mod = getattr(prop, 'by_module', None)
+            if by_mod:
+                # one audit per module (modules written independently may declare helper lemmas of the same name and cannot
+                # always be imported together), in parallel
+                from concurrent.futures import ThreadPoolExecutor
+                jobs = [(m, ts) for m, ts in by_mod.items() if m in built and ts]
+                with ThreadPoolExecutor(max_workers=8) as ex:
+                    for r in ex.map(lambda mt: audit_axioms('%s_%s' % (pid, mt[0].split('.')[-1]), mt[1], [mt[0]]), jobs):
+                        th_ok.update(r)
+            else:
+                th_ok = audit_axioms(pid, all_th, built)
             for t, (okk, axs) in th_ok.items():
                 if not okk:
                     proof_broken.append((t, 'axioms: %s' % axs))
